@@ -17,8 +17,8 @@ from lib import vlib
 from lib.vlib import cq_list, cq_bool
 
 SETUP_BUILDS = [{"name": "c07"}]
-COQ_TARGETS = ["Slots/Properties_C07.v", "Slots/Corr.v"]
-HEADER = ("From Coq Require Import List ZArith NArith Bool.\nFrom V Require Import Common.Bytes Slots.StopFns Slots.Model Slots.Corr.\n"
+COQ_TARGETS = ["Slots/Properties_C07.v", "Slots/Corr.v", "Slots/CorrMM.v"]
+HEADER = ("From Coq Require Import List ZArith NArith Bool.\nFrom V Require Import Common.Bytes Slots.StopFns Slots.Model Slots.Corr Slots.ModelMM Slots.CorrMM.\n"
           "Import ListNotations.\nOpen Scope Z_scope.\n")
 
 
@@ -146,6 +146,55 @@ def gen_swa_case(rng, klass):
     return {"op": "hist", "cfg": cfg, "ops": ops, "drain": 40, "fresh": True, "freshsteps": 60, "klass": klass}
 
 
+PLACEHOLDER = 24
+
+
+def expand_mm(prompt):
+    """what PostTokenize makes of a prompt: an image code is followed by its placeholder inputs"""
+    out = []
+    skip = 0
+    for t in prompt:
+        if skip > 0 and t == PLACEHOLDER:
+            skip -= 1
+            out.append(t)
+            continue
+        skip = 0
+        out.append(t)
+        if t >= 1000:
+            out += [PLACEHOLDER] * ((t - 1000) // 100)
+    return out
+
+
+def gen_mm_case(rng):
+    """multimodal inputs: an image is one input with SameBatch = n-1 followed by n-1 placeholders (n = 2..4)"""
+    numctx = rng.choice([6, 8, 8, 10, 12])
+    parallel = rng.choice([1, 1, 2])
+    vocab = rng.choice([3, 4, 6])
+    cfg = {"parallel": parallel, "kv": parallel * numctx, "batch": rng.choice([1, 2, 3, 4, 8]), "vocab": vocab, "eos": -1,
+           "multi": rng.random() < 0.5, "shift": rng.random() < 0.7, "partial": True, "resume": True, "pad": 1, "maskpad": 1}
+
+    def image():
+        return 1000 + 100 * rng.randint(1, 3) + rng.randrange(4)
+    imgs = [image(), image()]
+    base = []
+    for _ in range(rng.randint(3, numctx)):
+        base.append(rng.choice(imgs) if rng.random() < 0.25 else rng.randrange(vocab))
+    ops = []
+    for _ in range(rng.randint(3, 9)):
+        if rng.random() < 0.4:
+            r = rng.random()
+            if r < 0.6:
+                pr = base[:rng.randint(1, len(base))]
+            elif r < 0.85:
+                pr = base[:rng.randint(0, len(base) - 1)] + [rng.choice(imgs + [rng.randrange(vocab)])]
+            else:
+                pr = base + base[:rng.randint(1, len(base))]          # longer than the context: truncation across groups
+            ops.append({"t": "submit", "prompt": pr, "npred": rng.choice([1, 2, 3, numctx]), "keep": rng.choice([0, 0, 1, 2, -1])})
+        else:
+            ops += [{"t": "step"}] * rng.randint(1, 4)
+    return {"op": "hist", "cfg": cfg, "ops": ops, "drain": 40, "fresh": True, "freshsteps": 60, "klass": "multimodal"}
+
+
 CORPUS = [
     # fork a prefix into the second slot, overflow the fork: the shift fails on shared cells (the C07 defect)
     {"op": "hist", "cfg": {"parallel": 2, "kv": 16, "batch": 8, "vocab": 6, "eos": -1, "multi": True, "shift": True},
@@ -174,6 +223,8 @@ def gen_cases(ctx):
         cases.append(gen_case(rng, rng.choice(klasses)))
     for _ in range(90 if ctx.quick() else 1500):
         cases.append(gen_swa_case(rng, rng.choice(["swa-repeat", "swa-repeat", "swa-mixed"])))
+    for _ in range(70 if ctx.quick() else 1200):
+        cases.append(gen_mm_case(rng))
     return cases
 
 
@@ -279,6 +330,21 @@ def monitor_case(c, o):
                 if not okv:
                     out.append(({"class": "foreign-history"}, "operation %d: batch entry %d (seq %d, pos %d, token %d) attended to [kpos,tok] %s; recorded inputs %s"
                                 % (k, j, s, p, f["toks"][j], vis, rec)))
+            # an unbreakable group (a multimodal input + its SameBatch followers) must not be split across batches
+            need = {}
+            for j in range(len(f["toks"])):
+                sq, t = f["seqs"][j], f["toks"][j]
+                if t >= 1000:
+                    need[sq] = (t - 1000) // 100
+                elif t == PLACEHOLDER and need.get(sq, 0) > 0:
+                    need[sq] -= 1
+                else:
+                    need[sq] = 0
+            for sq, nd in need.items():
+                rest = [q for q in st["seqs"] if q is not None and q["slot"] == sq]
+                if nd > 0 and rest and rest[0]["inputs"][:1] == [PLACEHOLDER]:
+                    out.append(({"class": "samebatch-split"}, "operation %d: the batch ends inside an unbreakable group of sequence %d (%d followers left for the next batch): tokens %s"
+                                % (k, sq, nd, f["toks"])))
             for oi, bi in enumerate(f["outs"]):
                 r = slot_req.get(f["seqs"][bi])
                 if r is not None:
@@ -340,7 +406,7 @@ def render_op(c, e):
     if e["t"] == "step":
         return "Step"
     o = e["_op"]
-    return "(Submit %s (%d) (%d) %s)" % (zl(e["prompt"] or []), o.get("npred", 0), o.get("keep", 0), strs(o.get("stop", [])))
+    return "(Submit %s (%d) (%d) %s)" % (zl(expand_mm(e["prompt"] or [])), o.get("npred", 0), o.get("keep", 0), strs(o.get("stop", [])))
 
 
 def render_obs(e):
@@ -387,13 +453,15 @@ def render(c, o):
             break
         trace.append(e)
     tr = cq_list(["(%s, %s)" % (render_op(c, e), render_obs(e)) for e in trace], "(op * obs)")
-    return "chk_trace %d %s %d%%nat %s" % (c["cfg"]["vocab"], render_cfg(c["cfg"], o["numctx"]), c["cfg"]["parallel"], tr)
+    fn = "chk_trace_mm" if c.get("klass") == "multimodal" or any(t >= 1000 for e in trace if e["t"] == "submit" for t in (e["prompt"] or [])) else "chk_trace"
+    return "%s %d %s %d%%nat %s" % (fn, c["cfg"]["vocab"], render_cfg(c["cfg"], o["numctx"]), c["cfg"]["parallel"], tr)
 
 
 def model_term(c, o):
     attach_ops(c, o)
     ops = cq_list([render_op(c, e) for e in o["trace"]], "op")
-    return "model_trace %d %s %d%%nat %s" % (c["cfg"]["vocab"], render_cfg(c["cfg"], o["numctx"]), c["cfg"]["parallel"], ops)
+    fn = "model_trace_mm" if c.get("klass") == "multimodal" else "model_trace"
+    return "%s %d %s %d%%nat %s" % (fn, c["cfg"]["vocab"], render_cfg(c["cfg"], o["numctx"]), c["cfg"]["parallel"], ops)
 
 
 # ------------------------------------------------------------------ pure parts (both runners' copies)
